@@ -160,3 +160,8 @@ package roundrobin
 //@   props C10
 //@   atomic rb.mtx
 //@   modifies everything
+
+//@ type codeMeter
+//@   extsync
+//@   mutators Rating Record IsReady
+//@   immutable r codeS codeE
